@@ -119,7 +119,7 @@ def describe(tier, seed):
                     'cell that the documented support table excludes must raise before a function/result is returned (a cell '
                     'that returns numbers is tolerated only if they equal the default backend\'s); single-fault mutants of a '
                     'base model: each declared variable removed, each path component of each edge / output / input / '
-                    'update_var / node_values key misspelt (flat and hierarchical), every reserved name, second output, '
+                    'update_var / node_values key misspelt (flat and hierarchical), a misspelt operator override on the 1st / 2nd / 3rd node that uses the operator (node template and node_values), a variable only another operator declares, every reserved name, second output, '
                     'cyclic operator graph; inputs and update_var to a missing variable must at least warn; '
                     'non-trivial = cells/mutants that are expected to be refused',
             'bounds': {'faults_per_mutant': 1}}
